@@ -498,6 +498,9 @@ func (p *IterProg) Render() string {
 			case "str":
 				e = fmt.Sprintf("iter(\"%s\")", "abcdef"[:pr.N])
 			}
+			if pr.Kind == "genrand" {
+				e += fmt.Sprintf("\n_selfs[\"t%d\"] = %s", pr.Tag, g)
+			}
 			w(fmt.Sprintf("%s = None\n%s = %s\nlog(%s, \"new\")", g, g, e, id))
 		case "next":
 			if p.Prods[op.G].Kind == "genleak" {
